@@ -446,6 +446,7 @@ def run(ctx):
     if tier == "thorough":
         ny |= set(range(iso.min_year, iso.max_year + 1, 7)) | set(range(1, 2400))
     part("nth-weekday", w_nth, _split(sorted(ny), 16 if tier == "quick" else 64))
+    dl.report_disagreements(ctx, "C16")
     ctx.note("calendars", len(cals))
     ctx.note("rules", len(RULES))
     ctx.rule = ("weekyear: (calendar, rule, year) x every date within 8 days of the year start (plus the last days of the calendar); quick = ISO calendar x 71 rules x "
